@@ -18,16 +18,49 @@ def ActIter.drain : ActIter α → List (Nat × α) := ActIter.toList
 theorem ActIter.next_spec (it : ActIter α) :
     (it.next = none ∧ it.toList = []) ∨
     (∃ x it', it.next = some (x, it') ∧ it.toList = x :: it'.toList) := by
-  sorry
+  induction it using ActIter.next.induct with
+  | case1 a as p ps h =>
+    right
+    refine ⟨(a, p), .data as ps, ?_, ?_⟩
+    · rw [ActIter.next]; simp only [h, if_true]
+    · simp only [ActIter.toList, List.zip_cons_cons, List.filter_cons, h, decide_true, if_true]
+  | case2 a as p ps h ih =>
+    have h1 : (ActIter.data (a :: as) (p :: ps)).next = (ActIter.data as ps).next := by
+      rw [ActIter.next]; simp only [h, if_false]
+    have h2 : (ActIter.data (a :: as) (p :: ps)).toList = (ActIter.data as ps).toList := by
+      simp only [ActIter.toList, List.zip_cons_cons, List.filter_cons, h, decide_false,
+        Bool.false_eq_true, if_false]
+    rw [h1, h2]; exact ih
+  | case3 acts probs h =>
+    left
+    constructor
+    · rw [ActIter.next]
+      · exact h
+    · cases acts with
+      | nil => simp [ActIter.toList]
+      | cons a as =>
+        cases probs with
+        | nil => simp [ActIter.toList]
+        | cons p ps => exact (h a as p ps rfl rfl).elim
+  | case4 a =>
+    right
+    exact ⟨(a, 1), .single none, by rw [ActIter.next], rfl⟩
+  | case5 =>
+    left
+    exact ⟨by rw [ActIter.next], rfl⟩
 
 /-- **the advertised length of an action iterator is the number of items still to come** -/
 theorem ActIter.len_exact (it : ActIter α) : it.len = it.toList.length := by
-  sorry
+  cases it with
+  | data as ps => rfl
+  | single o => cases o <;> rfl
 
 /-- after a `next` the advertised length has dropped by exactly one; `none` only at length zero -/
 theorem ActIter.len_next (it : ActIter α) :
     (it.next = none ∧ it.len = 0) ∨ (∃ x it', it.next = some (x, it') ∧ it.len = it'.len + 1) := by
-  sorry
+  rcases ActIter.next_spec it with ⟨h1, h2⟩ | ⟨x, it', h1, h2⟩
+  · left; exact ⟨h1, by rw [ActIter.len_exact, h2]; rfl⟩
+  · right; exact ⟨x, it', h1, by rw [ActIter.len_exact, ActIter.len_exact it', h2]; rfl⟩
 
 /-- the infoset iterator, fully drained (labels only) -/
 def InfoIter.labels (it : InfoIter α) : List Nat :=
@@ -35,28 +68,96 @@ def InfoIter.labels (it : InfoIter α) : List Nat :=
 
 /-- **the advertised length of the infoset iterator is the number of infosets still to come** -/
 theorem InfoIter.len_exact (it : InfoIter α) : it.len = it.labels.length := by
-  sorry
+  simp [InfoIter.len, InfoIter.labels]
 
 /-- after a `next` the advertised length has dropped by exactly one, and the yielded label is
 the head of the labels still to come -/
 theorem InfoIter.len_next (it : InfoIter α) :
     (it.next = none ∧ it.len = 0) ∨
     (∃ l ai it', it.next = some ((l, ai), it') ∧ it.len = it'.len + 1 ∧ it.labels = l :: it'.labels) := by
-  sorry
+  obtain ⟨infos, probs, singles⟩ := it
+  cases infos with
+  | nil =>
+    cases singles with
+    | nil => left; exact ⟨rfl, rfl⟩
+    | cons s ss =>
+      obtain ⟨l, a⟩ := s
+      right
+      exact ⟨l, .single (some a), ⟨[], probs, ss⟩, rfl, rfl, rfl⟩
+  | cons i is =>
+    right
+    cases probs with
+    | nil =>
+      refine ⟨i.label, .data i.actions [], ⟨is, [], singles⟩, rfl, ?_, rfl⟩
+      simp only [InfoIter.len, List.length_cons]; omega
+    | cons p ps =>
+      refine ⟨i.label, .data i.actions p, ⟨is, ps, singles⟩, rfl, ?_, rfl⟩
+      simp only [InfoIter.len, List.length_cons]; omega
 
 /-! ## the drained view -/
+
+private theorem Fits.length_eq {infos : List PInfo} {σ : Strat α} (hf : Fits infos σ) :
+    σ.length = infos.length := by
+  have := congrArg List.length hf
+  simpa using this
+
+private theorem Fits.getElem?_length {infos : List PInfo} {σ : Strat α} (hf : Fits infos σ)
+    {k : Nat} {i : PInfo} {v : List α} (hi : infos[k]? = some i) (hv : σ[k]? = some v) :
+    v.length = i.actions.length := by
+  have := congrArg (fun l => l[k]?) hf
+  simpa [List.getElem?_map, hi, hv] using this
 
 /-- **every infoset is listed exactly once**: the keys of the view are the multi-action labels
 followed by the single-action labels, without repetition -/
 theorem asNamed_keys (infos : List PInfo) (singles : List (Nat × Nat)) (σ : Strat α)
     (hf : Fits infos σ) :
     (asNamed infos singles σ).map (·.1) = infos.map (·.label) ++ singles.map (·.1) := by
-  sorry
+  have hl := hf.length_eq
+  unfold asNamed
+  rw [List.map_append, List.map_map, List.map_map]
+  congr 1
+  · have : ((fun x : Nat × List (Nat × α) => x.1) ∘
+        fun x : PInfo × List α => (x.1.label, (ActIter.data x.1.actions x.2).toList))
+        = (fun i : PInfo => i.label) ∘ Prod.fst := rfl
+    rw [this, ← List.map_map, List.map_fst_zip (by omega)]
 
 theorem asNamed_keys_nodup (infos : List PInfo) (singles : List (Nat × Nat)) (σ : Strat α)
     (hw : TablesWF infos singles) (hf : Fits infos σ) :
     ((asNamed infos singles σ).map (·.1)).Nodup := by
-  sorry
+  rw [asNamed_keys infos singles σ hf]
+  exact List.Nodup.append hw.labelsNodup hw.singlesNodup (fun l h1 h2 => hw.disjoint l h1 h2)
+
+private theorem zip_filter_sum (as : List Nat) (v : List α) (hl : v.length = as.length)
+    (hv : ∀ p ∈ v, 0 ≤ p) :
+    (((as.zip v).filter (fun e => 0 < e.2)).map (·.2)).sum = v.sum := by
+  induction as generalizing v with
+  | nil => cases v with
+    | nil => rfl
+    | cons p ps => simp at hl
+  | cons a as ih =>
+    cases v with
+    | nil => simp at hl
+    | cons p ps =>
+      have h0 : 0 ≤ p := hv p (by simp)
+      have ih' := ih ps (by simpa using hl) (fun q hq => hv q (by simp [hq]))
+      simp only [List.zip_cons_cons, List.filter_cons, List.sum_cons]
+      by_cases hp : 0 < p
+      · simp only [hp, decide_true, if_true, List.map_cons, List.sum_cons, ih']
+      · have : p = 0 := le_antisymm (not_lt.mp hp) h0
+        subst this
+        simp only [lt_irrefl, decide_false, Bool.false_eq_true, if_false, ih', zero_add]
+
+theorem asNamed_getElem?_multi (infos : List PInfo) (singles : List (Nat × Nat)) (σ : Strat α)
+    (k : Nat) (i : PInfo) (v : List α)
+    (hi : infos[k]? = some i) (hv : σ[k]? = some v) :
+    (asNamed infos singles σ)[k]? = some (i.label, (i.actions.zip v).filter (fun e => 0 < e.2)) := by
+  unfold asNamed
+  have hz : (infos.zip σ)[k]? = some (i, v) := by
+    rw [List.getElem?_zip_eq_some]; exact ⟨hi, hv⟩
+  rw [List.getElem?_append_left]
+  · rw [List.getElem?_map, hz]; rfl
+  · rw [List.length_map]
+    exact (List.getElem?_eq_some_iff.mp hz).1
 
 /-- **a multi-action infoset is listed with exactly its positive-probability actions, in order,
 and their probabilities sum to one** -/
@@ -65,27 +166,375 @@ theorem asNamed_multi (infos : List PInfo) (singles : List (Nat × Nat)) (σ : S
     (hi : infos[k]? = some i) (hv : σ[k]? = some v) :
     (asNamed infos singles σ)[k]? = some (i.label, (i.actions.zip v).filter (fun e => 0 < e.2)) ∧
     (((i.actions.zip v).filter (fun e => 0 < e.2)).map (·.2)).sum = 1 := by
-  sorry
+  refine ⟨asNamed_getElem?_multi infos singles σ k i v hi hv, ?_⟩
+  have hd : IsDist v := hσ v (List.mem_of_getElem? hv)
+  rw [zip_filter_sum i.actions v (hf.getElem?_length hi hv) hd.1]
+  exact hd.2
 
 /-- **a single-action infoset is listed with its only action at probability one** -/
 theorem asNamed_single (infos : List PInfo) (singles : List (Nat × Nat)) (σ : Strat α)
     (hf : Fits infos σ) (k : Nat) (l a : Nat) (hs : singles[k]? = some (l, a)) :
     (asNamed infos singles σ)[infos.length + k]? = some (l, [(a, 1)]) := by
-  sorry
+  unfold asNamed
+  have hl : (infos.zip σ).length = infos.length := by
+    rw [List.length_zip, hf.length_eq, Nat.min_self]
+  rw [List.getElem?_append_right (by rw [List.length_map]; omega), List.length_map, hl,
+    Nat.add_sub_cancel_left, List.getElem?_map, hs]
+  rfl
 
 /-! ## round trip -/
+
+/-! ### look-up functions -/
+
+/-- a look-up function is correct on lists in which at most one element matches -/
+def LookupOK {β : Type} (find : (β → Bool) → List β → Option Nat) : Prop :=
+  (∀ f l, (∀ x ∈ l, f x = false) → find f l = none) ∧
+  (∀ f l k x, l[k]? = some x → f x = true →
+    (∀ k' x', l[k']? = some x' → f x' = true → k' = k) → find f l = some k)
+
+private theorem findLastIdx_go_none {β : Type} (f : β → Bool) (l : List β) (i : Nat) (r : Option Nat)
+    (h : ∀ x ∈ l, f x = false) : findLastIdx.go f l i r = r := by
+  induction l generalizing i r with
+  | nil => rfl
+  | cons y ys ih =>
+    rw [findLastIdx.go, h y (by simp)]
+    exact ih _ _ (fun x hx => h x (by simp [hx]))
+
+private theorem findLastIdx_go_unique {β : Type} (f : β → Bool) (l : List β) (i : Nat) (r : Option Nat)
+    (k : Nat) (x : β) (hk : l[k]? = some x) (hx : f x = true)
+    (hu : ∀ k' x', l[k']? = some x' → f x' = true → k' = k) :
+    findLastIdx.go f l i r = some (i + k) := by
+  induction l generalizing i r k with
+  | nil => simp at hk
+  | cons y ys ih =>
+    rw [findLastIdx.go]
+    cases k with
+    | zero =>
+      have hy : y = x := by simpa using hk
+      subst hy
+      rw [hx, if_pos rfl]
+      apply findLastIdx_go_none
+      intro z hz
+      by_contra hfz
+      obtain ⟨j, hj⟩ := List.getElem?_of_mem hz
+      have := hu (j + 1) z (by simpa using hj) (by simpa using hfz)
+      omega
+    | succ k' =>
+      have hy : f y = false := by
+        by_contra hfy
+        have := hu 0 y (by simp) (by simpa using hfy)
+        omega
+      rw [hy]
+      have := ih (i + 1) r k' (by simpa using hk)
+        (fun j z hj hz => by have := hu (j + 1) z (by simpa using hj) hz; omega)
+      rw [show i + (k' + 1) = i + 1 + k' by omega]
+      simpa using this
+
+theorem lookupOK_findLastIdx {β : Type} :
+    LookupOK (fun (f : β → Bool) (l : List β) => findLastIdx f l) := by
+  constructor
+  · intro f l h
+    exact findLastIdx_go_none f l 0 none h
+  · intro f l k x hk hx hu
+    have := findLastIdx_go_unique f l 0 none k x hk hx hu
+    simpa [findLastIdx] using this
+
+theorem lookupOK_findIdx? {β : Type} :
+    LookupOK (fun (f : β → Bool) (l : List β) => l.findIdx? f) := by
+  constructor
+  · intro f l h
+    simpa using h
+  · intro f l k x hk hx hu
+    induction l generalizing k with
+    | nil => simp at hk
+    | cons y ys ih =>
+      show List.findIdx? f (y :: ys) = some k
+      rw [List.findIdx?_cons]
+      cases k with
+      | zero =>
+        have hy : y = x := by simpa using hk
+        subst hy
+        rw [if_pos hx]
+      | succ k' =>
+        have hy : ¬ f y = true := by
+          intro hfy
+          have := hu 0 y (by simp) hfy
+          omega
+        rw [if_neg hy]
+        have : List.findIdx? f ys = some k' := ih k' (by simpa using hk)
+          (fun j z hj hz => by have := hu (j + 1) z (by simpa using hj) hz; omega)
+        rw [this]; rfl
+
+private theorem nodup_getElem?_inj {β : Type} {l : List β} (h : l.Nodup) {i j : Nat} {x : β}
+    (hi : l[i]? = some x) (hj : l[j]? = some x) : i = j := by
+  have hi' := (List.getElem?_eq_some_iff.mp hi).1
+  exact (List.getElem?_inj hi' h).mp (hi.trans hj.symm)
+
+/-! ### small list facts -/
+
+private theorem modify_append_cons {β : Type} (pre : List β) (x : β) (post : List β) (f : β → β)
+    (n : Nat) (hn : n = pre.length) :
+    (pre ++ x :: post).modify n f = pre ++ f x :: post := by
+  subst hn
+  induction pre with
+  | nil => rfl
+  | cons y ys ih => simp [ih]
+
+private theorem set_append_cons {β : Type} (pre : List β) (x y : β) (post : List β)
+    (n : Nat) (hn : n = pre.length) :
+    (pre ++ x :: post).set n y = pre ++ y :: post := by
+  subst hn
+  induction pre with
+  | nil => rfl
+  | cons z zs ih => simp [ih]
+
+private theorem getElem?_append_cons {β : Type} (pre : List β) (x : β) (post : List β)
+    (n : Nat) (hn : n = pre.length) :
+    (pre ++ x :: post)[n]? = some x := by
+  subst hn
+  simp
+
+private theorem getD_append_cons {β : Type} (pre : List β) (x d : β) (post : List β)
+    (n : Nat) (hn : n = pre.length) :
+    (pre ++ x :: post).getD n d = x := by
+  rw [List.getD_eq_getElem?_getD, getElem?_append_cons pre x post n hn]; rfl
+
+/-! ### the inner loop writes one probability vector -/
+
+theorem importActions_fill (findA : (Nat → Bool) → List Nat → Option Nat) (hA : LookupOK findA)
+    (acts : List Nat) (hn : acts.Nodup) (dpre dpost : Strat α) :
+    ∀ (apost apre : List Nat) (vpre vpost : List α), acts = apre ++ apost →
+      vpre.length = apre.length → vpost.length = apost.length → (∀ p ∈ vpost, 0 ≤ p) →
+      importActions findA acts dpre.length ((apost.zip vpost).filter (fun e => 0 < e.2))
+        (dpre ++ (vpre ++ List.replicate apost.length 0) :: dpost)
+        = .ok (dpre ++ (vpre ++ vpost) :: dpost) := by
+  intro apost
+  induction apost with
+  | nil =>
+    intro apre vpre vpost _ _ hl _
+    have : vpost = [] := List.eq_nil_of_length_eq_zero (by simpa using hl)
+    subst this
+    simp [importActions]
+  | cons a as ih =>
+    intro apre vpre vpost hacts hlpre hlpost hnn
+    cases vpost with
+    | nil => simp at hlpost
+    | cons p ps =>
+      have h0 : 0 ≤ p := hnn p (by simp)
+      have hacts' : acts = (apre ++ [a]) ++ as := by rw [hacts]; simp
+      have ih' := ih (apre ++ [a]) (vpre ++ [p]) ps hacts' (by simp [hlpre])
+        (by simpa using hlpost) (fun q hq => hnn q (by simp [hq]))
+      have hrow : vpre ++ List.replicate (a :: as).length (0 : α)
+          = vpre ++ 0 :: List.replicate as.length 0 := by
+        simp [List.replicate_succ]
+      rw [hrow]
+      simp only [List.zip_cons_cons, List.filter_cons]
+      by_cases hp : 0 < p
+      · simp only [hp, decide_true, if_true]
+        rw [importActions]
+        have hok : probOk p = true := by simp [probOk, h0]
+        have hfind : findA (fun x => x == a) acts = some apre.length := by
+          apply hA.2 _ _ _ a
+          · rw [hacts]; exact getElem?_append_cons _ _ _ _ rfl
+          · simp
+          · intro k' x' hk' hx'
+            have : x' = a := by simpa using hx'
+            subst this
+            exact nodup_getElem?_inj hn hk' (by rw [hacts]; exact getElem?_append_cons _ _ _ _ rfl)
+        rw [if_pos hok, hfind]
+        simp only
+        have hset : setWeight (dpre ++ (vpre ++ 0 :: List.replicate as.length 0) :: dpost)
+            dpre.length apre.length p
+            = dpre ++ ((vpre ++ [p]) ++ List.replicate as.length 0) :: dpost := by
+          unfold setWeight
+          rw [modify_append_cons _ _ _ _ _ rfl, set_append_cons _ _ _ _ _ hlpre.symm]
+          simp
+        rw [hset, ih']
+        simp
+      · have hp0 : p = 0 := le_antisymm (not_lt.mp hp) h0
+        subst hp0
+        simp only [lt_irrefl, decide_false, Bool.false_eq_true, if_false]
+        have : vpre ++ (0 : α) :: List.replicate as.length 0
+            = (vpre ++ [0]) ++ List.replicate as.length 0 := by simp
+        rw [this, ih']
+        simp
+
+/-! ### the outer loop over the multi-action entries -/
+
+theorem importLoop_multi (findI : (PInfo → Bool) → List PInfo → Option Nat)
+    (findA : (Nat → Bool) → List Nat → Option Nat)
+    (findS : ((Nat × Nat) → Bool) → List (Nat × Nat) → Option Nat)
+    (hI : LookupOK findI) (hA : LookupOK findA)
+    (infos : List PInfo) (singles : List (Nat × Nat)) (hw : TablesWF infos singles)
+    (rest : Named α) (seen : List Bool) :
+    ∀ (post pre : List PInfo) (σpre σpost : Strat α), infos = pre ++ post →
+      σpre.length = pre.length → Fits post σpost → IsStrat σpost →
+      importLoop findI findA findS infos singles
+        ((post.zip σpost).map (fun (i, p) => (i.label, (ActIter.data i.actions p).toList)) ++ rest)
+        (σpre ++ post.map (fun i => List.replicate i.actions.length 0)) seen
+      = importLoop findI findA findS infos singles rest (σpre ++ σpost) seen := by
+  intro post
+  induction post with
+  | nil =>
+    intro pre σpre σpost _ _ hf _
+    have : σpost = [] := List.eq_nil_of_length_eq_zero (by simpa using hf.length_eq)
+    subst this
+    simp
+  | cons i is ih =>
+    intro pre σpre σpost hinfos hlen hf hσ
+    cases σpost with
+    | nil => have := hf.length_eq; simp at this
+    | cons v vs =>
+      have hf' : Fits is vs := by
+        have : List.map List.length (v :: vs) = List.map (fun i => i.actions.length) (i :: is) := hf
+        simp only [List.map_cons, List.cons.injEq] at this
+        exact this.2
+      have hvl : v.length = i.actions.length := by
+        have : List.map List.length (v :: vs) = List.map (fun i => i.actions.length) (i :: is) := hf
+        simp only [List.map_cons, List.cons.injEq] at this
+        exact this.1
+      have hv : IsDist v := hσ v (by simp)
+      have hσ' : IsStrat vs := fun w hw => hσ w (by simp [hw])
+      have hinfos' : infos = (pre ++ [i]) ++ is := by rw [hinfos]; simp
+      have ih' := ih (pre ++ [i]) (σpre ++ [v]) vs hinfos' (by simp [hlen]) hf' hσ'
+      have hget : infos[pre.length]? = some i := by
+        rw [hinfos]; exact getElem?_append_cons _ _ _ _ rfl
+      have hfind : findI (fun x => x.label == i.label) infos = some pre.length := by
+        apply hI.2 _ _ _ i hget
+        · simp
+        · intro k' x' hk' hx'
+          have hl : x'.label = i.label := by simpa using hx'
+          apply nodup_getElem?_inj hw.labelsNodup (x := i.label)
+          · rw [List.getElem?_map, hk', Option.map_some, hl]
+          · rw [List.getElem?_map, hget, Option.map_some]
+      have hgetD : infos.getD pre.length default = i := by
+        rw [hinfos]; exact getD_append_cons _ _ _ _ _ rfl
+      have hnd : i.actions.Nodup := hw.actionsNodup i (List.mem_of_getElem? hget)
+      have hact := importActions_fill findA hA i.actions hnd σpre
+        (is.map (fun i => List.replicate i.actions.length (0 : α))) i.actions [] [] v rfl rfl hvl hv.1
+      simp only [List.nil_append] at hact
+      simp only [List.zip_cons_cons, List.map_cons, List.cons_append]
+      rw [importLoop, hfind]
+      simp only
+      rw [hgetD, ← hlen]
+      simp only [ActIter.toList]
+      rw [hact]
+      simp only
+      have e1 : σpre ++ v :: List.map (fun i => List.replicate i.actions.length (0 : α)) is
+          = (σpre ++ [v]) ++ List.map (fun i => List.replicate i.actions.length (0 : α)) is := by
+        simp
+      have e2 : σpre ++ v :: vs = (σpre ++ [v]) ++ vs := by simp
+      rw [e1, e2]
+      exact ih'
+
+/-! ### the outer loop over the single-action entries -/
+
+theorem importLoop_singles (findI : (PInfo → Bool) → List PInfo → Option Nat)
+    (findA : (Nat → Bool) → List Nat → Option Nat)
+    (findS : ((Nat × Nat) → Bool) → List (Nat × Nat) → Option Nat)
+    (hI : LookupOK findI) (hS : LookupOK findS)
+    (infos : List PInfo) (singles : List (Nat × Nat)) (hw : TablesWF infos singles)
+    (dense : Strat α) :
+    ∀ (spost spre : List (Nat × Nat)), singles = spre ++ spost →
+      importLoop findI findA findS infos singles
+        (spost.map (fun (l, a) => (l, [(a, (1 : α))]))) dense
+        (List.replicate spre.length true ++ List.replicate spost.length false)
+      = .ok (dense, List.replicate singles.length true) := by
+  intro spost
+  induction spost with
+  | nil =>
+    intro spre hs
+    subst hs
+    simp [importLoop]
+  | cons s ss ih =>
+    intro spre hs
+    obtain ⟨l, a⟩ := s
+    have hs' : singles = (spre ++ [(l, a)]) ++ ss := by rw [hs]; simp
+    have ih' := ih (spre ++ [(l, a)]) hs'
+    have hget : singles[spre.length]? = some (l, a) := by
+      rw [hs]; exact getElem?_append_cons _ _ _ _ rfl
+    have hmem : l ∈ singles.map (·.1) :=
+      List.mem_map.mpr ⟨(l, a), List.mem_of_getElem? hget, rfl⟩
+    have hfindI : findI (fun x => x.label == l) infos = none := by
+      apply hI.1
+      intro x hx
+      by_contra hxl
+      have hxl' : x.label = l := by simpa using hxl
+      exact hw.disjoint l (List.mem_map.mpr ⟨x, hx, hxl'⟩) hmem
+    have hfindS : findS (fun x => x.1 == l) singles = some spre.length := by
+      apply hS.2 _ _ _ (l, a) hget
+      · simp
+      · intro k' x' hk' hx'
+        have hl : x'.1 = l := by simpa using hx'
+        apply nodup_getElem?_inj hw.singlesNodup (x := l)
+        · rw [List.getElem?_map, hk', Option.map_some, hl]
+        · rw [List.getElem?_map, hget, Option.map_some]
+    have hgetD : singles.getD spre.length default = (l, a) := by
+      rw [hs]; exact getD_append_cons _ _ _ _ _ rfl
+    have hseen : List.replicate spre.length true ++ List.replicate ((l, a) :: ss).length false
+        = List.replicate spre.length true ++ false :: List.replicate ss.length false := by
+      simp [List.replicate_succ]
+    have hsingle : importSingle a [(a, (1 : α))] false = .ok true := by
+      simp [importSingle, probOk]
+    simp only [List.map_cons]
+    rw [importLoop, hfindI]
+    simp only
+    rw [hfindS]
+    simp only
+    rw [hgetD, hseen, getD_append_cons _ _ _ _ _ (by simp)]
+    simp only
+    rw [hsingle]
+    simp only
+    rw [set_append_cons _ _ _ _ _ (by simp)]
+    have e : List.replicate spre.length true ++ true :: List.replicate ss.length false
+        = List.replicate (spre ++ [(l, a)]).length true ++ List.replicate ss.length false := by
+      simp [List.replicate_succ']
+    rw [e]
+    exact ih'
+
+/-! ### normalisation is the identity on a strategy -/
+
+theorem importFinish_strat (σ : Strat α) (hσ : IsStrat σ) : importFinish σ = .ok σ := by
+  induction σ with
+  | nil => rfl
+  | cons v vs ih =>
+    have hv := hσ v (by simp)
+    have ih' := ih (fun w hw => hσ w (by simp [hw]))
+    rw [importFinish]
+    simp only [lsum_eq_sum, hv.2, ih']
+    simp
+
+theorem importWith_asNamed (findI : (PInfo → Bool) → List PInfo → Option Nat)
+    (findA : (Nat → Bool) → List Nat → Option Nat)
+    (findS : ((Nat × Nat) → Bool) → List (Nat × Nat) → Option Nat)
+    (hI : LookupOK findI) (hA : LookupOK findA) (hS : LookupOK findS)
+    (infos : List PInfo) (singles : List (Nat × Nat)) (σ : Strat α)
+    (hw : TablesWF infos singles) (hf : Fits infos σ) (hσ : IsStrat σ) :
+    importWith findI findA findS infos singles (asNamed infos singles σ) = .ok σ := by
+  have h1 := importLoop_multi findI findA findS hI hA infos singles hw
+    (singles.map (fun (l, a) => (l, [(a, (1 : α))]))) (List.replicate singles.length false)
+    infos [] [] σ rfl rfl hf hσ
+  have h2 := importLoop_singles findI findA findS hI hS infos singles hw σ singles [] rfl
+  simp only [List.nil_append, List.length_nil, List.replicate_zero] at h1 h2
+  unfold importWith asNamed
+  simp only
+  rw [h1, h2]
+  simp only [importFinish_strat σ hσ]
+  simp
 
 /-- **importing the named view yields the original profile** (exact arithmetic: exactly) -/
 theorem stratIntoBox_asNamed (infos : List PInfo) (singles : List (Nat × Nat)) (σ : Strat α)
     (hw : TablesWF infos singles) (hf : Fits infos σ) (hσ : IsStrat σ) :
-    stratIntoBox infos singles (asNamed infos singles σ) = .ok σ := by
-  sorry
+    stratIntoBox infos singles (asNamed infos singles σ) = .ok σ :=
+  importWith_asNamed _ _ _ lookupOK_findLastIdx lookupOK_findLastIdx lookupOK_findLastIdx
+    infos singles σ hw hf hσ
 
 /-- the same through the scan-based importer -/
 theorem stratIntoBoxSlow_asNamed (infos : List PInfo) (singles : List (Nat × Nat)) (σ : Strat α)
     (hw : TablesWF infos singles) (hf : Fits infos σ) (hσ : IsStrat σ) :
-    stratIntoBoxSlow infos singles (asNamed infos singles σ) = .ok σ := by
-  sorry
+    stratIntoBoxSlow infos singles (asNamed infos singles σ) = .ok σ :=
+  importWith_asNamed _ _ _ lookupOK_findIdx? lookupOK_findIdx? lookupOK_findIdx?
+    infos singles σ hw hf hσ
 
 /-! ## non-vacuity -/
 
@@ -99,5 +548,10 @@ example : Fits exInfos exSigma := by simp [Fits, exInfos, exSigma]
 example : asNamed exInfos exSingles exSigma =
     [(7, [(0, 1/2), (2, 1/2)]), (9, [(4, 1)]), (3, [(8, 1)])] := by
   norm_num [asNamed, exInfos, exSingles, exSigma, ActIter.toList, List.zip, List.filter]
+
+example : IsStrat exSigma := by
+  intro v hv
+  simp only [exSigma, List.mem_cons, List.not_mem_nil, or_false] at hv
+  rcases hv with rfl | rfl <;> constructor <;> norm_num
 
 end Cfr
